@@ -307,3 +307,364 @@ Proof.
     exists st2. split; [rewrite Hr1; exact Hr2|]. split; [|split; [lia | exact Hi2]].
     rewrite Hs2, Hs1. cbn [map rev]. rewrite <- app_assoc. reflexivity.
 Qed.
+
+(* a class object *)
+Lemma type_default_sound : forall w m n cs prog cs' rest st,
+  match chk_atom (AStr m) cs prog with
+  | Some (cs1, p1) =>
+      match chk_atom (AStr n) cs1 p1 with
+      | Some (cs2, STACK_GLOBAL :: p2) => chk_put cs2 (PType m n) p2
+      | _ => None
+      end
+  | None => None
+  end = Some (cs', rest) ->
+  inv cs st -> find_class w m n = FCResolved GType ->
+  exists st', run w st prog = run w st' rest /\ stack st' = OGlobal m n GType :: stack st /\
+              next st' = next st /\ inv cs' st'.
+Proof.
+  intros w m n cs prog cs' rest st H Hinv Hfc.
+  destruct (chk_atom (AStr m) cs prog) as [[cs1 p1]|] eqn:E1; [|discriminate].
+  destruct (chk_atom (AStr n) cs1 p1) as [[cs2 p2]|] eqn:E2; [|discriminate].
+  destruct p2 as [|q p2]; [discriminate|]. destruct q; try discriminate.
+  destruct (atom_sound w _ _ _ _ _ st E1 Hinv) as [st1 [Hr1 [Hs1 [Hn1 Hi1]]]].
+  destruct (atom_sound w _ _ _ _ _ st1 E2 Hi1) as [st2 [Hr2 [Hs2 [Hn2 Hi2]]]].
+  cbn [obj_of_atom] in Hs1, Hs2.
+  set (st3 := mkState (OGlobal m n GType :: stack st) (memo st2) (next st2) (ecache st2) (EResolve m n :: trace st2)).
+  assert (H3 : step w st2 STACK_GLOBAL = SNext st3).
+  { cbn [step]. rewrite Hs2, Hs1. cbn [pop1 is_mark]. unfold do_global. rewrite Hfc. reflexivity. }
+  assert (Hi3 : inv cs2 st3).
+  { unfold st3. apply (inv_trace _ _ _ _ _ (trace st2)). apply inv_stack; [exact Hi2 | lia|].
+    cbn. destruct Hi2 as [[Hs _] _]. rewrite Hs2, Hs1 in Hs. cbn in Hs. exact Hs. }
+  destruct (put_sound w cs2 (PType m n) p2 cs' rest st3 (OGlobal m n GType) (stack st) H Hi3 eq_refl eq_refl
+                      (fun _ => eq_refl)) as [st4 [Hr4 [Hs4 [Hn4 Hi4]]]].
+  exists st4. split; [|split; [exact Hs4 | split; [cbn in Hn4; lia | exact Hi4]]].
+  rewrite Hr1, Hr2, (run_step_next w st2 STACK_GLOBAL st3 p2 H3). exact Hr4.
+Qed.
+
+Lemma type_sound : forall w m n cs prog cs' rest st,
+  chk_type m n cs prog = Some (cs', rest) -> inv cs st -> find_class w m n = FCResolved GType ->
+  exists st', run w st prog = run w st' rest /\ stack st' = OGlobal m n GType :: stack st /\
+              next st' = next st /\ inv cs' st'.
+Proof.
+  intros w m n cs prog cs' rest st H Hinv Hfc. unfold chk_type in H. destruct prog as [|p r]; [discriminate|].
+  destruct (match get_index p with Some i => chk_get cs (PType m n) i | None => false end) eqn:Eg.
+  - inversion H; subst cs' rest. destruct (get_index p) as [i|] eqn:Ei; [|discriminate].
+    destruct (get_sound w cs (PType m n) i st p Ei Eg Hinv) as [Hs _]. cbn [canon_obj] in Hs.
+    exists (push (OGlobal m n GType) st). split; [apply run_step_next; exact Hs|].
+    split; [reflexivity | split; [reflexivity|]]. apply inv_push; [exact Hinv | reflexivity].
+  - destruct p;
+      try (match type of H with
+           | match chk_atom _ _ ?pp with _ => _ end = _ => exact (type_default_sound w m n cs pp cs' rest st H Hinv Hfc)
+           end).
+    (* GLOBAL *)
+    match type of H with (if (pystr_eqb ?a m && pystr_eqb ?b n && _ && _)%bool then _ else _) = _ =>
+      rename a into m0; rename b into n0 end.
+    destruct (pystr_eqb m0 m && pystr_eqb n0 n && negb (empty_line m) && negb (empty_line n))%bool eqn:Ec; [|discriminate].
+    apply andb_true_iff in Ec. destruct Ec as [Ec En]. apply andb_true_iff in Ec. destruct Ec as [Ec Em].
+    apply andb_true_iff in Ec. destruct Ec as [E1 E2]. apply pystr_eqb_eq in E1. apply pystr_eqb_eq in E2. subst m0 n0.
+    apply negb_true_iff in Em. apply negb_true_iff in En.
+    set (st1 := mkState (OGlobal m n GType :: stack st) (memo st) (next st) (ecache st) (EResolve m n :: trace st)).
+    assert (H1 : step w st (GLOBAL m n) = SNext st1).
+    { cbn [step]. rewrite Em, En. cbn [orb]. unfold do_global. rewrite Hfc. reflexivity. }
+    assert (Hi1 : inv cs st1).
+    { unfold st1. apply (inv_trace _ _ _ _ _ (trace st)). apply inv_stack; [exact Hinv | lia|].
+      cbn. destruct Hinv as [[Hs _] _]. exact Hs. }
+    destruct (put_sound w cs (PType m n) r cs' rest st1 (OGlobal m n GType) (stack st) H Hi1 eq_refl eq_refl
+                        (fun _ => eq_refl)) as [st2 [Hr2 [Hs2 [Hn2 Hi2]]]].
+    exists st2. split; [|split; [exact Hs2 | split; [exact Hn2 | exact Hi2]]].
+    rewrite (run_step_next w st _ st1 r H1). exact Hr2.
+Qed.
+
+(** * closing a batch: the target is mutated in place *)
+
+Lemma mutate_stack : forall i c st t below,
+  stack st = t :: below -> subst i c t = c -> forallb (ids_below i) below = true ->
+  stack (mutate i c st) = c :: below.
+Proof.
+  intros i c st t below Hs Ht Hb. unfold mutate. cbn [stack]. rewrite Hs. cbn [map].
+  rewrite Ht, (stack_subst_fresh _ _ _ Hb). reflexivity.
+Qed.
+
+Lemma nodup_atoms_prefix : forall l1 l2, nodup_atoms (l1 ++ l2) = true -> nodup_atoms l1 = true.
+Proof.
+  induction l1 as [|a r IH]; intros l2 H; cbn in *; [reflexivity|].
+  apply andb_true_iff in H. destruct H as [H1 H2]. rewrite (IH _ H2), andb_true_r.
+  apply negb_true_iff in H1. apply negb_true_iff. unfold mem_atom in *. rewrite existsb_app in H1.
+  apply orb_false_iff in H1. apply H1.
+Qed.
+
+Lemma inv_set_stack_sub : forall cs st s, inv cs st ->
+  forallb (ids_below (next st)) s = true -> inv cs (set_stack st s).
+Proof. intros cs st s H Hs. unfold set_stack. apply inv_stack; [exact H | lia | exact Hs]. Qed.
+
+Lemma fresh_stack_tail : forall st a s, fresh_state st -> stack st = a :: s ->
+  ids_below (next st) a = true /\ forallb (ids_below (next st)) s = true.
+Proof. intros st a s [Hs _] E. rewrite E in Hs. cbn in Hs. apply andb_true_iff in Hs. exact Hs. Qed.
+
+Lemma forallb_app_split : forall (A : Type) (f : A -> bool) l1 l2,
+  forallb f (l1 ++ l2) = true -> forallb f l1 = true /\ forallb f l2 = true.
+Proof. intros. rewrite forallb_app in H. apply andb_true_iff in H. exact H. Qed.
+
+(* ADDITEMS on a set that already has members *)
+Lemma additems_step : forall w cs st i prevA itemsA below,
+  inv cs st -> itemsA <> [] -> nodup_atoms (prevA ++ itemsA) = true ->
+  stack st = (rev (map obj_of_atom itemsA) ++ OMark :: OSet i (map obj_of_atom prevA) :: below)%list ->
+  forallb (ids_below i) below = true -> i < next st ->
+  exists st', step w st ADDITEMS = SNext st' /\
+              stack st' = OSet i (map obj_of_atom (prevA ++ itemsA)) :: below /\
+              next st' = next st /\ inv cs st'.
+Proof.
+  intros w cs st i prevA itemsA below Hinv Hne Hnd Hs Hb Hlt.
+  set (c := OSet i (map obj_of_atom (prevA ++ itemsA))).
+  exists (mutate i c (set_stack st (OSet i (map obj_of_atom prevA) :: below))).
+  split; [|split; [|split]].
+  - cbn [step]. unfold with_mark. rewrite Hs, (to_mark_rev _ _ (no_mark_atoms itemsA)).
+    unfold do_additems. cbn [pop1 is_mark].
+    destruct (map obj_of_atom itemsA) as [|x r] eqn:E; [destruct itemsA; [contradiction | discriminate]|].
+    rewrite <- E, (set_add_all_atoms itemsA prevA Hnd). reflexivity.
+  - apply (mutate_stack i c _ (OSet i (map obj_of_atom prevA)) below); [reflexivity | | exact Hb].
+    cbn [subst]. rewrite Nat.eqb_refl. reflexivity.
+  - reflexivity.
+  - apply inv_mutate.
+    + apply inv_set_stack_sub; [exact Hinv|]. destruct Hinv as [[Hst _] _]. rewrite Hs in Hst.
+      apply forallb_app_split in Hst. destruct Hst as [_ Hst]. cbn in Hst. exact Hst.
+    + cbn [ids_below c]. rewrite ids_below_atoms, andb_true_r. apply Nat.ltb_lt. exact Hlt.
+Qed.
+
+Lemma set_items_sound : forall w xs inm cs prog cs' rest st i prevA batchA below,
+  chk_set_items xs inm cs prog = Some (cs', rest) -> inv cs st ->
+  stack st = ((if inm then rev (map obj_of_atom batchA) ++ [OMark] else []) ++ OSet i (map obj_of_atom prevA) :: below)%list ->
+  (inm = false -> batchA = []) ->
+  nodup_atoms (prevA ++ batchA ++ xs) = true ->
+  forallb (ids_below i) below = true -> i < next st ->
+  exists st', run w st prog = run w st' rest /\
+              stack st' = OSet i (map obj_of_atom (prevA ++ batchA ++ xs)) :: below /\
+              next st' = next st /\ inv cs' st'.
+Proof.
+  intros w. induction xs as [|a r IH]; intros inm cs prog cs' rest st i prevA batchA below H Hinv Hs Hbat Hnd Hb Hlt;
+    cbn [chk_set_items] in H.
+  - destruct inm; [discriminate|]. inversion H; subst cs' rest. rewrite (Hbat eq_refl) in *. cbn [app] in *.
+    exists st. rewrite !app_nil_r. auto.
+  - (* enter the batch if necessary *)
+    assert (Henter : exists st0 p0, run w st prog = run w st0 p0 /\
+              (if inm then Some prog else match prog with MARK :: p => Some p | _ => None end) = Some p0 /\
+              stack st0 = (rev (map obj_of_atom batchA) ++ OMark :: OSet i (map obj_of_atom prevA) :: below)%list /\
+              next st0 = next st /\ inv cs st0).
+    { destruct inm.
+      - exists st, prog. rewrite Hs, <- app_assoc. auto.
+      - rewrite (Hbat eq_refl) in *. destruct prog as [|q p]; [discriminate|]. destruct q; try discriminate.
+        exists (push OMark st), p. split; [apply run_step_next; reflexivity|]. split; [reflexivity|].
+        split; [cbn; rewrite Hs; reflexivity|]. split; [reflexivity|]. apply inv_push; [exact Hinv | reflexivity]. }
+    destruct Henter as [st0 [p0 [Hr0 [Hp0 [Hs0 [Hn0 Hi0]]]]]]. rewrite Hp0 in H. clear Hp0.
+    destruct (chk_atom a cs p0) as [[cs1 p1]|] eqn:Ea; [|discriminate].
+    destruct (atom_sound w a cs p0 cs1 p1 st0 Ea Hi0) as [st1 [Hr1 [Hs1 [Hn1 Hi1]]]].
+    assert (Hs1' : stack st1 = (rev (map obj_of_atom (batchA ++ [a])) ++ OMark :: OSet i (map obj_of_atom prevA) :: below)%list).
+    { rewrite Hs1, Hs0, map_app, rev_app_distr. reflexivity. }
+    (* the default continuation: the batch stays open *)
+    assert (Hopen : chk_set_items r true cs1 p1 = Some (cs', rest) ->
+              exists st', run w st prog = run w st' rest /\
+                stack st' = OSet i (map obj_of_atom (prevA ++ batchA ++ a :: r)) :: below /\
+                next st' = next st /\ inv cs' st').
+    { intro H'. destruct (IH true cs1 p1 cs' rest st1 i prevA (batchA ++ [a]) below H' Hi1) as [st' [Hr' [Hs' [Hn' Hi']]]].
+      - rewrite Hs1', <- app_assoc. reflexivity.
+      - discriminate.
+      - rewrite <- app_assoc. exact Hnd.
+      - exact Hb.
+      - lia.
+      - exists st'. split; [rewrite Hr0, Hr1; exact Hr'|]. rewrite <- app_assoc in Hs'. split; [exact Hs'|]. split; [lia | exact Hi']. }
+    destruct p1 as [|q p1']; [apply Hopen; exact H|].
+    destruct q; try (apply Hopen; exact H).
+    (* ADDITEMS closes the batch *)
+    assert (Hnd1 : nodup_atoms (prevA ++ (batchA ++ [a])) = true).
+    { apply (nodup_atoms_prefix _ r). rewrite <- !app_assoc. exact Hnd. }
+    destruct (additems_step w cs1 st1 i prevA (batchA ++ [a]) below Hi1) as [st2 [Hst2 [Hs2 [Hn2 Hi2]]]].
+    + destruct batchA; discriminate.
+    + exact Hnd1.
+    + exact Hs1'.
+    + exact Hb.
+    + lia.
+    + destruct (IH false cs1 p1' cs' rest st2 i (prevA ++ batchA ++ [a]) [] below H Hi2) as [st' [Hr' [Hs' [Hn' Hi']]]].
+      * exact Hs2.
+      * reflexivity.
+      * cbn [app]. rewrite <- !app_assoc. exact Hnd.
+      * exact Hb.
+      * lia.
+      * exists st'. split; [rewrite Hr0, Hr1, (run_step_next w st1 ADDITEMS st2 p1' Hst2); exact Hr'|].
+        cbn [app] in Hs'. rewrite <- !app_assoc in Hs'. split; [exact Hs'|]. split; [lia | exact Hi'].
+Qed.
+
+(** * the generic member loops *)
+
+Definition member_sound (w : world) (chkf : pv -> cstate -> list op -> option (cstate * list op)) (x : pv) : Prop :=
+  forall cs prog cs' rest, chkf x cs prog = Some (cs', rest) -> forall st, inv cs st ->
+  exists o st', run w st prog = run w st' rest /\ stack st' = o :: stack st /\ decode o = Some x /\
+    is_mark o = false /\ (idfree x = true -> o = canon_obj x) /\ inv cs' st' /\ next st <= next st'.
+
+Lemma seq_sound : forall w chkf xs, Forall (member_sound w chkf) xs ->
+  forall cs prog cs' rest st, seq_gen chkf xs cs prog = Some (cs', rest) -> inv cs st ->
+  exists os st', run w st prog = run w st' rest /\ stack st' = (rev os ++ stack st)%list /\
+    Forall2 (fun o v => decode o = Some v) os xs /\ existsb is_mark os = false /\
+    (forallb idfree xs = true -> os = map canon_obj xs) /\ inv cs' st' /\ next st <= next st'.
+Proof.
+  intros w chkf xs HF. induction HF as [|x r Hx Hr IH]; intros cs prog cs' rest st H Hinv; cbn [seq_gen] in H.
+  - inversion H; subst. exists [], st. cbn.
+    split; [reflexivity|]. split; [reflexivity|]. split; [constructor|]. split; [reflexivity|].
+    split; [reflexivity|]. split; [exact Hinv | lia].
+  - destruct (chkf x cs prog) as [[cs1 p1]|] eqn:E; [|discriminate].
+    destruct (Hx cs prog cs1 p1 E st Hinv) as [o [st1 [Hr1 [Hs1 [Hd1 [Hm1 [Hc1 [Hi1 Hn1]]]]]]]].
+    destruct (IH cs1 p1 cs' rest st1 H Hi1) as [os [st2 [Hr2 [Hs2 [Hd2 [Hm2 [Hc2 [Hi2 Hn2]]]]]]]].
+    exists (o :: os), st2. split; [rewrite Hr1; exact Hr2|].
+    split; [rewrite Hs2, Hs1; cbn [rev]; rewrite <- app_assoc; reflexivity|].
+    split; [constructor; assumption|]. split; [cbn; rewrite Hm1; exact Hm2|].
+    split; [|split; [exact Hi2 | lia]].
+    intro Hf. cbn in Hf. apply andb_true_iff in Hf. destruct Hf as [F1 F2]. cbn [map]. rewrite (Hc1 F1), (Hc2 F2). reflexivity.
+Qed.
+
+Lemma appends_step : forall w cs st i prev items below,
+  inv cs st -> items <> [] -> existsb is_mark items = false ->
+  stack st = (rev items ++ OMark :: OList i prev :: below)%list ->
+  forallb (ids_below i) below = true -> i < next st ->
+  exists st', step w st APPENDS = SNext st' /\ stack st' = OList i (prev ++ items) :: below /\
+              next st' = next st /\ inv cs st'.
+Proof.
+  intros w cs st i prev items below Hinv Hne Hm Hs Hb Hlt.
+  set (c := OList i (prev ++ items)).
+  exists (mutate i c (set_stack st (OList i prev :: below))).
+  destruct Hinv as [[Hst Hmm] Hrest]. pose proof Hst as Hst'. rewrite Hs in Hst'.
+  apply forallb_app_split in Hst'. destruct Hst' as [Hit Hst']. rewrite forallb_rev' in Hit.
+  cbn [forallb] in Hst'. apply andb_true_iff in Hst'. destruct Hst' as [_ Hst'].
+  split; [|split; [|split]].
+  - cbn [step]. unfold with_mark. rewrite Hs, (to_mark_rev _ _ Hm). unfold do_extend. cbn [pop1 is_mark].
+    destruct items as [|x r]; [contradiction|]. reflexivity.
+  - apply (mutate_stack i c _ (OList i prev) below); [reflexivity | | exact Hb].
+    cbn [subst]. rewrite Nat.eqb_refl. reflexivity.
+  - reflexivity.
+  - apply inv_mutate.
+    + apply inv_set_stack_sub; [split; [split|]; assumption | exact Hst'].
+    + cbn [forallb ids_below] in Hst'. apply andb_true_iff in Hst'. destruct Hst' as [Ht _].
+      apply andb_true_iff in Ht. destruct Ht as [Hl Hp].
+      cbn [ids_below c set_stack next]. rewrite Hl, forallb_app, Hp, Hit. reflexivity.
+Qed.
+
+Lemma append_step : forall w cs st i prev o below,
+  inv cs st -> is_mark o = false ->
+  stack st = o :: OList i prev :: below ->
+  forallb (ids_below i) below = true -> i < next st ->
+  exists st', step w st APPEND = SNext st' /\ stack st' = OList i (prev ++ [o]) :: below /\
+              next st' = next st /\ inv cs st'.
+Proof.
+  intros w cs st i prev o below Hinv Hm Hs Hb Hlt.
+  set (c := OList i (prev ++ [o])).
+  exists (mutate i c (set_stack st (OList i prev :: below))).
+  destruct Hinv as [[Hst Hmm] Hrest]. pose proof Hst as Hst'. rewrite Hs in Hst'.
+  cbn [forallb] in Hst'. apply andb_true_iff in Hst'. destruct Hst' as [Ho Hst'].
+  split; [|split; [|split]].
+  - cbn [step]. rewrite Hs. cbn [pop1]. rewrite Hm. unfold do_extend. cbn [pop1 is_mark]. reflexivity.
+  - apply (mutate_stack i c _ (OList i prev) below); [reflexivity | | exact Hb].
+    cbn [subst]. rewrite Nat.eqb_refl. reflexivity.
+  - reflexivity.
+  - apply inv_mutate.
+    + apply inv_set_stack_sub; [split; [split|]; assumption | exact Hst'].
+    + cbn [forallb ids_below] in Hst'. apply andb_true_iff in Hst'. destruct Hst' as [Ht _].
+      apply andb_true_iff in Ht. destruct Ht as [Hl Hp].
+      cbn [ids_below c set_stack next]. rewrite Hl, forallb_app, Hp. cbn. rewrite Ho. reflexivity.
+Qed.
+
+Lemma items_sound : forall w chkf xs, Forall (member_sound w chkf) xs ->
+  forall inm cs prog cs' rest st i prev batch below,
+  items_gen chkf xs inm cs prog = Some (cs', rest) -> inv cs st ->
+  stack st = ((if inm then rev batch ++ [OMark] else []) ++ OList i prev :: below)%list ->
+  (inm = false -> batch = []) -> existsb is_mark batch = false ->
+  forallb (ids_below i) below = true -> i < next st ->
+  exists os st', run w st prog = run w st' rest /\ stack st' = OList i (prev ++ batch ++ os) :: below /\
+     Forall2 (fun o v => decode o = Some v) os xs /\ inv cs' st' /\ next st <= next st'.
+Proof.
+  intros w chkf xs HF. induction HF as [|x r Hx Hr IH];
+    intros inm cs prog cs' rest st i prev batch below H Hinv Hs Hbat Hmk Hb Hlt; cbn [items_gen] in H.
+  - destruct inm; [discriminate|]. inversion H; subst cs' rest. rewrite (Hbat eq_refl) in *. cbn [app] in *.
+    exists [], st. rewrite !app_nil_r.
+    split; [reflexivity|]. split; [exact Hs|]. split; [constructor|]. split; [exact Hinv | lia].
+  - (* inside a batch (already open, or opened by MARK now) *)
+    assert (Hbatch : forall st0 p0 bat,
+              run w st prog = run w st0 p0 -> next st0 = next st -> inv cs st0 ->
+              stack st0 = (rev bat ++ OMark :: OList i prev :: below)%list -> bat = batch ->
+              match chkf x cs p0 with
+              | Some (cs1, p1) => match p1 with
+                                  | APPENDS :: p2 => items_gen chkf r false cs1 p2
+                                  | _ => items_gen chkf r true cs1 p1
+                                  end
+              | None => None
+              end = Some (cs', rest) ->
+              exists os st', run w st prog = run w st' rest /\ stack st' = OList i (prev ++ batch ++ os) :: below /\
+                Forall2 (fun o v => decode o = Some v) os (x :: r) /\ inv cs' st' /\ next st <= next st').
+    { intros st0 p0 bat Hr0 Hn0 Hi0 Hs0 Ebat H0. subst bat.
+      destruct (chkf x cs p0) as [[cs1 p1]|] eqn:E; [|discriminate].
+      destruct (Hx cs p0 cs1 p1 E st0 Hi0) as [o [st1 [Hr1 [Hs1 [Hd1 [Hm1 [_ [Hi1 Hn1]]]]]]]].
+      assert (Hs1' : stack st1 = (rev (batch ++ [o]) ++ OMark :: OList i prev :: below)%list).
+      { rewrite Hs1, Hs0, rev_app_distr. reflexivity. }
+      assert (Hmk1 : existsb is_mark (batch ++ [o]) = false).
+      { rewrite existsb_app, Hmk. cbn. rewrite Hm1. reflexivity. }
+      assert (Hopen : items_gen chkf r true cs1 p1 = Some (cs', rest) ->
+                exists os st', run w st prog = run w st' rest /\ stack st' = OList i (prev ++ batch ++ os) :: below /\
+                  Forall2 (fun o v => decode o = Some v) os (x :: r) /\ inv cs' st' /\ next st <= next st').
+      { intro H'. destruct (IH true cs1 p1 cs' rest st1 i prev (batch ++ [o]) below H' Hi1) as [os [st' [Hr' [Hs' [Hd' [Hi' Hn']]]]]].
+        - rewrite Hs1', <- app_assoc. reflexivity.
+        - discriminate.
+        - exact Hmk1.
+        - exact Hb.
+        - lia.
+        - exists (o :: os), st'. split; [rewrite Hr0, Hr1; exact Hr'|].
+          rewrite <- app_assoc in Hs'. split; [exact Hs'|]. split; [constructor; assumption|]. split; [exact Hi' | lia]. }
+      destruct p1 as [|q p1']; [apply Hopen; exact H0|].
+      destruct q; try (apply Hopen; exact H0).
+      destruct (appends_step w cs1 st1 i prev (batch ++ [o]) below Hi1) as [st2 [Hst2 [Hs2 [Hn2 Hi2]]]].
+      + destruct batch; discriminate.
+      + exact Hmk1.
+      + exact Hs1'.
+      + exact Hb.
+      + lia.
+      + destruct (IH false cs1 p1' cs' rest st2 i (prev ++ batch ++ [o]) [] below H0 Hi2) as [os [st' [Hr' [Hs' [Hd' [Hi' Hn']]]]]].
+        * exact Hs2.
+        * reflexivity.
+        * reflexivity.
+        * exact Hb.
+        * lia.
+        * exists (o :: os), st'. split; [rewrite Hr0, Hr1, (run_step_next w st1 APPENDS st2 p1' Hst2); exact Hr'|].
+          cbn [app] in Hs'. rewrite <- !app_assoc in Hs'. split; [exact Hs'|].
+          split; [constructor; assumption|]. split; [exact Hi' | lia]. }
+    (* a single item followed by APPEND *)
+    assert (Hsingle : inm = false ->
+              match chkf x cs prog with
+              | Some (cs1, p1) => match p1 with APPEND :: p2 => items_gen chkf r false cs1 p2 | _ => None end
+              | None => None
+              end = Some (cs', rest) ->
+              exists os st', run w st prog = run w st' rest /\ stack st' = OList i (prev ++ batch ++ os) :: below /\
+                Forall2 (fun o v => decode o = Some v) os (x :: r) /\ inv cs' st' /\ next st <= next st').
+    { intros Einm H0. subst inm. rewrite (Hbat eq_refl) in *. cbn [app] in Hs.
+      destruct (chkf x cs prog) as [[cs1 p1]|] eqn:E; [|discriminate].
+      destruct p1 as [|q p2]; [discriminate|]. destruct q; try discriminate.
+      destruct (Hx cs prog cs1 _ E st Hinv) as [o [st1 [Hr1 [Hs1 [Hd1 [Hm1 [_ [Hi1 Hn1]]]]]]]].
+      destruct (append_step w cs1 st1 i prev o below Hi1 Hm1) as [st2 [Hst2 [Hs2 [Hn2 Hi2]]]].
+      + rewrite Hs1, Hs. reflexivity.
+      + exact Hb.
+      + lia.
+      + destruct (IH false cs1 p2 cs' rest st2 i (prev ++ [o]) [] below H0 Hi2) as [os [st' [Hr' [Hs' [Hd' [Hi' Hn']]]]]].
+        * exact Hs2.
+        * reflexivity.
+        * reflexivity.
+        * exact Hb.
+        * lia.
+        * exists (o :: os), st'. split; [rewrite Hr1, (run_step_next w st1 APPEND st2 p2 Hst2); exact Hr'|].
+          cbn [app] in Hs'. rewrite <- !app_assoc in Hs'. cbn [app]. split; [exact Hs'|].
+          split; [constructor; assumption|]. split; [exact Hi' | lia]. }
+    destruct inm.
+    + apply (Hbatch st prog batch); auto. rewrite Hs, <- app_assoc. reflexivity.
+    + destruct prog as [|q p]; [apply Hsingle; [reflexivity | exact H]|].
+      destruct q; try (apply Hsingle; [reflexivity | exact H]).
+      (* MARK opens a batch *)
+      rewrite (Hbat eq_refl) in *.
+      apply (Hbatch (push OMark st) p []); auto.
+      * apply run_step_next. reflexivity.
+      * apply inv_push; [exact Hinv | reflexivity].
+      * cbn. rewrite Hs. reflexivity.
+Qed.
